@@ -167,7 +167,13 @@ func VerifC11Range() {
 		verifAssume(b == 'a' || b == 'b' || b == 'c' || b == 'x')
 		data = append(data, b, '\n')
 	}
-	src := `$0 == "a", $0 == "b" { s = s NR } $0 == "c", $0 == "c" { u = u NR } END { done = 1 }`
+	// the range rules may sit behind many other rules (rule numbers up to and beyond 64)
+	pad := []int{0, 62, 63, 64, 70}[verifIntRange(0, 4)]
+	src := ""
+	for i := 0; i < pad; i++ {
+		src += "$0 == \"zz\" { z++ }\n"
+	}
+	src += `$0 == "a", $0 == "b" { s = s NR } $0 == "c", $0 == "c" { u = u NR } END { done = 1 }`
 	cfg := &Config{Stdin: bytes.NewReader(data), Output: &bytes.Buffer{}, Error: &bytes.Buffer{}, Environ: []string{}}
 	_, err, p := verifRunProgram(src, cfg, nil)
 	verifAssert(err == nil, "run failed")
@@ -244,4 +250,5 @@ END { endrec = $0; endnf = NF; if (endx) exit 5 }`
 	verifAssert(verifGlobal(p, "seen").s == seen && verifGlobal(p, "after").s == after && verifGlobal(p, "second").s == after,
 		"next / nextfile / exit (called from inside a function and a loop) skipped the wrong rules, records or files")
 	verifAssert(verifGlobal(p, "endrec").s == last && st == status, "END must still run after exit with $0 of the last record, and the exit status is the last exit value")
+	verifAssert(p.callDepth == 0 && len(p.localArrays) == 0 && len(p.arrays) == len(p.arrayIndexes), "next / nextfile / exit from inside a function left call bookkeeping behind (call depth, local arrays)")
 }
